@@ -38,6 +38,17 @@ DocOf(out) == [i \in 1..Len(out) |->
     sym |-> SymString(out[i].sym), vals |-> out[i].vals, bpm |-> out[i].bpm, meter |-> out[i].meter,
     vel |-> DynString(out[i].vel), key |-> IF out[i].hasKey THEN PrintKey(out[i].key) ELSE <<>>,
     txt |-> Utf8Seq(MetaVal(out[i].meta, kTXT)), lic |-> Utf8Seq(MetaVal(out[i].meta, kLIC)), mrk |-> Utf8Seq(MetaVal(out[i].meta, kMRK))]]
+\* Whether the blanks at either end of a text written in the chord notation (`{txt= x }`) belong to the text is the
+\* lexer's business and no property's: the pipe is judged with such blanks taken off on both sides (ASCII blanks only --
+\* the payload is bytes)
+AsciiBlank == {9, 10, 11, 12, 13, 32}
+RECURSIVE TrimAL(_)
+TrimAL(s) == IF s # <<>> /\ s[1] \in AsciiBlank THEN TrimAL(Tail(s)) ELSE s
+RECURSIVE TrimAR(_)
+TrimAR(s) == IF s # <<>> /\ s[Len(s)] \in AsciiBlank THEN TrimAR(SubSeq(s, 1, Len(s) - 1)) ELSE s
+TrimA(s) == TrimAL(TrimAR(s))
+TrimDoc(d) == [i \in 1..Len(d) |-> [d[i] EXCEPT !.txt = TrimA(@), !.lic = TrimA(@), !.mrk = TrimA(@)]]
+TrimEv(ev) == [j \in 1..Len(ev) |-> IF ev[j][4] = 255 /\ ev[j][6] \in {1, 5, 6} THEN [ev[j] EXCEPT ![8] = TrimA(@)] ELSE ev[j]]
 NoFlags == [bpm |-> 0, meter |-> <<>>, vel |-> "", key |-> <<>>]
 
 ExpectedConv(s, mode, keyflag) ==
@@ -53,8 +64,8 @@ DriverClaimPipe == R.kind = "pipe" =>
    e.ok /\ \A i \in 1..Len(e.out) : e.out[i].rest \/ SymString(e.out[i].sym) # "?"
 PipeInv == R.kind = "pipe" =>
    LET e == ExpectedConv(R.s, R.mode, R.keyflag)
-       w == [doc |-> DocOf(e.out), flags |-> NoFlags, tracks |-> 1, ntracks |-> R.ntracks, ok |-> R.writeOk, ok1 |-> TRUE,
-             division |-> R.division, ev |-> R.ev, ev1 |-> <<>>]
+       w == [doc |-> TrimDoc(DocOf(e.out)), flags |-> NoFlags, tracks |-> 1, ntracks |-> R.ntracks, ok |-> R.writeOk, ok1 |-> TRUE,
+             division |-> R.division, ev |-> TrimEv(R.ev), ev1 |-> <<>>]
    IN /\ (R.convOk \/ e.may)                    \* (a note outside the key may be refused by text conv: C03)
       /\ (R.convOk => /\ R.writeOk              \* everything text conv prints is accepted by write
                        /\ C01Ok(w) /\ C02Written(w) /\ C07Written(w))     \* and means the chords, durations, settings and texts that were written
